@@ -372,7 +372,7 @@ def plan(ctx):
                 bound, budget = 2, 15000
             tasks.append(("checks.C20", "task_tuple", (ids, bound, budget), b, "p"))
         if not quick:
-            for ids in itertools.combinations(range(n), 3):
+            for ids in itertools.combinations(general, 3):   # triples among the general bodies only (the twin bodies meet in pairs)
                 if set(ids) & CACHE_BODIES and set(ids) & {0, 1, 4, 5, 8}:
                     tasks.append(("checks.C20", "task_tuple", (ids, 1, 6000), b, "t"))
         tasks.append(("checks.C20", "task_free_run", (40 if quick else 400,), b, "f"))
